@@ -290,7 +290,7 @@ pub fn shard_run(tier: &str, seed: u64, replay_case: Option<usize>, shard: Shard
         }
     }
     // ---- freshly written by the vendored pinned crates
-    let n = if thorough { 3000 } else { 96 };
+    let n = if thorough { 4000 } else { 480 };
     for i in 0..n {
         let case = 1000 + i;
         match replay_case {
